@@ -6,7 +6,9 @@ operations. Operations create tracks that SHARE the Obs objects (`+`, extract, s
 (computeAbsCurv, estimate_speed function and method, addAnalyticalFeature(speed | ds), operate(INTEGRATOR),
 operate(DIFFERENTIATOR), Track.length, computeCurvAbsBetweenTwoPoints, getAbsCurv / getSpeed / track[name]),
 evaluate absolute times (isSorted, duration, getT), write user features, and edit positions and timestamp
-FIELDS in place between computations.
+FIELDS in place between computations. Stamps carry a `zone` field ("zones" of the case, default 0; edited in place by
+["et", k, i, "zone", z] and by ["tz", k, z] = track.setTimeZone(z)): the clock readings of a pool merged from loggers set to
+different zones are non-decreasing, `zone` is not read by toAbsTime() / t2 - t1.
 
 The oracle replays the history on its own bookkeeping (current positions / stamps, which names each track
 lists, how many feature slots each observation carries, which of ds / abs_curv / speed were computed from the
@@ -16,19 +18,26 @@ generators; the `P` class (c17.py) runs the real code and the Lean model on the 
 import calendar, math, time as _time
 
 FIELDS = ("year", "month", "day", "hour", "min", "sec", "ms")
+ZFIELDS = FIELDS + ("zone",)        # everything an ObsTime object holds; `zone` is not read by toAbsTime() / t2 - t1
 COMPUTED = ("ds", "abs_curv", "speed")
 FEATURE_OPS = ("a", "s", "S", "f", "d", "I", "E", "D", "rm", "w")       # write the feature table of their track
 READ_OPS = ("L", "c", "g", "q")
 NEW_OPS = ("add", "ext", "sl", "cp")
-EDIT_OPS = ("ex", "et")
+EDIT_OPS = ("ex", "et", "tz")
 TOUCHED = {"a": ("ds", "abs_curv"), "s": ("speed",), "S": ("speed",), "f": ("speed",), "d": ("ds",),
            "I": ("abs_curv",), "E": ("abs_curv",), "D": ("dd",)}
 
 
-def fields_of(tms):
+def fields_of(tms, zone=0):
     g = _time.gmtime(tms // 1000)
     return {"year": g.tm_year, "month": g.tm_mon, "day": g.tm_mday, "hour": g.tm_hour, "min": g.tm_min, "sec": g.tm_sec,
-            "ms": tms % 1000}
+            "ms": tms % 1000, "zone": zone}
+
+
+def zones_of(case):
+    """the `zone` field of the stamps of the pool (clock readings of loggers set to different zones; 0 when not given)"""
+    z = case.get("zones")
+    return list(z) if z else [0] * len(case["pos"])
 
 
 def tms_of(f):
@@ -42,7 +51,7 @@ class Sym:
     def __init__(self, case):
         n = len(case["pos"])
         self.pos = [list(p) for p in case["pos"]]
-        self.fld = [fields_of(t) for t in case["tms"]]
+        self.fld = [fields_of(t, z) for t, z in zip(case["tms"], zones_of(case))]
         self.slots = [0] * n
         self.tracks = [{"ids": list(range(n)), "names": [], "valid": set()}]
         self.tainted = False      # an exception left partial effects on a misaligned table: feature checks stop
@@ -51,6 +60,9 @@ class Sym:
     # ---- queries
     def tms(self, h):
         return tms_of(self.fld[h])
+
+    def zone(self, h):
+        return self.fld[h]["zone"]
 
     def ok(self, k):
         """the table of track k is in a state the statement speaks about: no observation twice, every observation
@@ -88,8 +100,12 @@ class Sym:
             return 0 <= op[2] <= op[3] < n
         if kind == "sl":
             return 0 <= op[2] < op[3] <= n
-        if kind in ("ex", "et"):
+        if kind == "et":
+            return 0 <= op[2] < n and op[3] in ZFIELDS and isinstance(op[4], int)
+        if kind == "ex":
             return 0 <= op[2] < n
+        if kind == "tz":
+            return isinstance(op[2], int)
         if kind in ("I", "E"):
             return "ds" in t["names"]
         if kind == "D":
@@ -198,6 +214,12 @@ class Sym:
             for u in self.tracks:
                 if h in u["ids"]:
                     u["valid"].clear()
+        elif kind == "tz":                    # track.setTimeZone(zone): the zone field of every stamp of the track, in place
+            for h in t["ids"]:
+                self.fld[h]["zone"] = op[2]
+            for u in self.tracks:
+                if set(t["ids"]) & set(u["ids"]):
+                    u["valid"].clear()
         if kind in FEATURE_OPS:
             # the slots of shared observations were appended to / written / deleted: what a sharing track reads
             # under its own names is no longer what was computed for it
@@ -294,6 +316,19 @@ class Gen:
                 d += rng.choice([0, 1, 2, 10, 500, 999, rng.randrange(0, 1000)])
             t.append(t[-1] + d)
         self.case = {"kind": "world", "mode": mode, "pos": pos, "tms": t, "hist": []}
+        # the `zone` field of the stamps: most pools are stamped in zone 0; some in one other zone; some are merged from two
+        # loggers set to different zones (the clock readings stay non-decreasing); some carry a zone per fix
+        r = rng.random()
+        if r < 0.35:
+            zs = [0, 1, 2, -5, 12, -11]
+            if r < 0.08:
+                zones = [rng.choice(zs[1:])] * n
+            elif r < 0.25:
+                m, za, zb = rng.randrange(1, n), rng.choice(zs), rng.choice(zs)
+                zones = [za] * m + [zb] * (n - m)
+            else:
+                zones = [rng.choice(zs[:4]) for _ in range(n)]
+            self.case["zones"] = zones
         self.sym = Sym(self.case)
 
     # ---- helpers
@@ -386,6 +421,12 @@ class Gen:
                 cur = sym.pos[h]["xyz".index(c)]
                 v = rng.choice([cur + 1.0, cur - 2.5, cur + 1e-6, cur + 1e4, rng.uniform(-1000, 1000)])
                 return self.push(["ex", k, i, c, v, rng.randrange(0, 4)])
+        if rng.random() < 0.2:                # the zone of one stamp / of every stamp of the track (setTimeZone), in place
+            z = rng.choice([0, 1, 2, -5])
+            if rng.random() < 0.4:
+                return self.push(["tz", k, z])
+            if z != sym.fld[h]["zone"]:
+                return self.push(["et", k, i, "zone", z])
         for _ in range(6):
             field = rng.choice(["sec", "sec", "sec", "min", "ms"] if self.mode == "f" else ["sec", "sec", "sec", "min"])
             cur = sym.fld[h][field]
@@ -497,7 +538,7 @@ def enum_world(length):
     tms = [10000, 11000, 11000, 14000]
     prefix = [["ext", 0, 1, 2]]
     alphabet = [["a", 0], ["a", 1], ["S", 0], ["S", 1], ["f", 0], ["rm", 0, "abs_curv"], ["rm", 0, "speed"],
-                ["ex", 0, 1, "x", 0, 0], ["et", 0, 1, "sec", 10], ["q", 0, "dur"]]
+                ["ex", 0, 1, "x", 0, 0], ["et", 0, 1, "sec", 10], ["q", 0, "dur"], ["et", 0, 2, "zone", 2]]
     out = []
     for word in itertools.product(range(len(alphabet)), repeat=length):
         hist = prefix + [list(alphabet[i]) for i in word]
